@@ -74,6 +74,34 @@ def run(chk, replay=None):
                         if out.strip(): chk.violate('redacted output emitted although the key is unusable', dict(case, out=out[:120].decode('utf-8', 'replace')), tags=['output'])
             finally:
                 shutil.rmtree(d, ignore_errors=True)
+    # histories with a FAILING run in between, and a key path reached through a symbolic link: the existing valid key must survive
+    for scenario in ('missing_input', 'unreadable_gz', 'symlink'):
+        d = tempfile.mkdtemp(prefix='c11h_')
+        try:
+            open(os.path.join(d, 'in.log'), 'wb').write(LINES)
+            real = os.path.join(d, 'real.key'); open(real, 'wb').write(valid); os.chmod(real, 0o600)
+            kp = real
+            if scenario == 'symlink':
+                kp = os.path.join(d, 'link.key'); os.symlink(real, kp)
+            def runit(inp, out):
+                return subprocess.run([CLI, 'redact', inp, '-o', os.path.join(d, out), '-y', '-q', kp], stdin=subprocess.DEVNULL, capture_output=True)
+            p1 = runit(os.path.join(d, 'in.log'), 'o1.log')
+            if scenario == 'missing_input': p2 = runit(os.path.join(d, 'does-not-exist.log'), 'o2.log')
+            elif scenario == 'unreadable_gz':
+                open(os.path.join(d, 'bad.log.gz'), 'wb').write(b'not gzip'); p2 = runit(os.path.join(d, 'bad.log.gz'), 'o2.log')
+            else: p2 = runit(os.path.join(d, 'in.log'), 'o2.log')
+            p3 = runit(os.path.join(d, 'in.log'), 'o3.log')
+            chk.count(3); chk.nontriv(('history', scenario))
+            case = {'history': scenario, 'rcs': [p1.returncode, p2.returncode, p3.returncode], 'stderr': p2.stderr.decode('utf-8', 'replace')[-200:]}
+            now = snapshot(real)
+            if now[0] != 'file' or now[1] != valid:
+                chk.violate('an existing valid key file was removed or replaced during a history of runs', dict(case, key_now=str(now)[:80]), tags=['overwrite', 'history'])
+            o1 = open(os.path.join(d, 'o1.log'), 'rb').read() if os.path.exists(os.path.join(d, 'o1.log')) else None
+            o3 = open(os.path.join(d, 'o3.log'), 'rb').read() if os.path.exists(os.path.join(d, 'o3.log')) else None
+            if p1.returncode != 0 or p3.returncode != 0 or o1 != o3 or not o1:
+                chk.violate('runs before and after do not produce the same ciphertext with the same key file', case, tags=['reuse', 'history'])
+        finally:
+            shutil.rmtree(d, ignore_errors=True)
     if len(set(keys_seen)) != len(keys_seen):
         chk.violate('two generated keys are equal', {'n': len(keys_seen)}, tags=['rng'])
     chk.dist('generated_keys', len(keys_seen))
